@@ -33,7 +33,7 @@ var standins = map[string][]standin{
 		Stands: "round trip of the search and description responses, whose friendly name passes through the charmap codec (an assumed contract without an inverse) and whose family list is bounded to 5 in the deductive Pack contract"}},
 	"C06": {{Name: "C06F16", Pkg: "knx/dpt", File: "dpt_f16_test.go", Run: "^TestKvcStandinC06F16$",
 		Domain: "all 65,536 payloads {0,b1,b2} of each of the 20 two-octet float types 9.xxx (complete for 3-byte payloads; other lengths are rejected by the C08 contracts)",
-		Stands: "round trip Unpack;Pack;Unpack of the 9.xxx types through packF16/unpackF16 (float32 multiply/round/halving loop: the per-exponent deductive slices lemmaF16rt_e* need 15+ minutes each and run in the thorough tier only)"},
+		Stands: "round trip Unpack;Pack;Unpack of the 9.xxx types through packF16/unpackF16 (float32 multiply/round/halving loop: a deductive proof per exponent needs 16+ minutes per slice and did not finish for every exponent, so it is not registered)"},
 		{Name: "C0616", Pkg: "knx/dpt", File: "dpt_16_test.go", Run: "^TestKvcStandinC0616$",
 			Domain: "NOT exhaustive: 15-byte payloads of 16.000/16.001 in which two adjacent octets range over all 65,536 values at every position while the other octets are all 0x00, all 'A' or all 0xE9 (5.1 million payloads)",
 			Stands: "round trip of the two string types: the deductive lemma exceeds the path budget (string <-> []rune conversions inside two 14-step loops); per-octet independence of the codec is NOT proved"}},
